@@ -388,7 +388,8 @@ void integer_add_mul_int(const lp_int_ring_t* K, lp_integer_t* sum_product, cons
   if (b > 0) {
     mpz_addmul_ui(sum_product, a, b);
   } else {
-    mpz_submul_ui(sum_product, a, -b);
+    // -b does not fit an int for b = INT_MIN
+    mpz_submul_ui(sum_product, a, -(unsigned long)b);
   }
   integer_ring_normalize(K, sum_product);
 }
